@@ -19,7 +19,7 @@ Status summary (see `C17_full` at the end). The LIVE model is the repaired worke
                                reproduced on the code before the repair), bf_terminates_partial_old,
                                c17_full_old_refuted
   sequential helpers         : seq_helper_eq_spec and its instances traversePaths_eq_spec, terminals_eq_spec,
-                               acyclicNodes_eq_spec, intermediaryPaths_eq_spec (result = skip/limit window
+                               acyclicNodes_eq_spec, acyclicNodes_reachable_spec, intermediaryPaths_eq_spec (result = skip/limit window
                                of the FILTERED DFS candidate sequence, all graphs/filters/skip/limit)
                                traversePaths_order_eq_spec, paths_fit_finite, c17_seq_paths (the DFS candidate
                                order of TraversePaths = the recursive path definition on every finite graph)
@@ -418,6 +418,54 @@ theorem acyclicNodes_eq_spec (p : Seq.Plan) (hp : p.helper = .nodes) (root : Nat
           simp only [Seq.offeredByDescent, Bool.and_eq_true] at this
           exact this.2
       · exact ih c' s h
+
+/-- AcyclicTraverseNodes, independent characterisation of its candidate set (no user descent filter): once
+the DFS has emptied its stack, a node is a candidate iff the node filter accepts it and it is reachable
+from the root over at least one edge (a successor of a reachable node). With `acyclicNodes_eq_spec` the
+returned set is the root (if accepted) plus the skip/limit window of that candidate sequence; without
+skip/limit it is exactly the accepted reachable node set.
+HYPOTHESIS `hdone`: the tracker-free DFS finished within `fuel` (true on every finite graph; the tie
+reports `model-out-of-fuel` otherwise). -/
+theorem acyclicNodes_reachable_spec (p : Seq.Plan) (hp : p.helper = .nodes) (hd : p.descentFilter = none)
+    (root fuel : Nat)
+    (hdone : (Seq.accRun p fuel { stack := [{ root := root, steps := [] }], visited := [] } []).1.stack = []) :
+    ∀ v, v ∈ (Seq.events p fuel { stack := [{ root := root, steps := [] }], visited := [] }).map Seq.Seg.node ↔
+      (Seq.optAccept p.nodeFilter v = true ∧ ∃ u, Seq.Reachable p.adj root u ∧ v ∈ Seq.succs p.adj u) := by
+  have h0 : Seq.NInv p root { stack := [{ root := root, steps := [] }], visited := [] } [] := by
+    refine ⟨?_, ?_, ?_, ?_, ?_⟩
+    · intro s hs; simp at hs; subst hs; exact Seq.Reachable.refl
+    · intro u hu; cases hu
+    · intro u hu; cases hu
+    · intro v; simp
+    · right; exact ⟨_, List.mem_singleton.mpr rfl, rfl⟩
+  have hi := Seq.ninv_run p hp hd root fuel _ _ h0
+  have hacc := Seq.accRun_events p fuel { stack := [{ root := root, steps := [] }], visited := [] } []
+  simp only [List.nil_append] at hacc
+  -- with an empty stack the visited set is closed under successors and contains the root
+  have hclosed : ∀ u, Seq.Reachable p.adj root u →
+      u ∈ (Seq.accRun p fuel { stack := [{ root := root, steps := [] }], visited := [] } []).1.visited := by
+    intro u hu
+    induction hu with
+    | refl =>
+      rcases hi.root with h | ⟨s, hs, _⟩
+      · exact h
+      · rw [hdone] at hs; cases hs
+    | step _ hv ih =>
+      rcases hi.closed _ ih _ hv with h | ⟨s, hs, _⟩
+      · exact h
+      · rw [hdone] at hs; cases hs
+  intro v
+  rw [← hacc, hi.offers v]
+  constructor
+  · rintro ⟨ha, u, hu, hv⟩; exact ⟨ha, u, hi.reachV u hu, hv⟩
+  · rintro ⟨ha, u, hu, hv⟩; exact ⟨ha, u, hclosed u hu, hv⟩
+
+/-- non-vacuity: a cycle with a tail, node filter rejecting 2: candidates = accepted nodes reachable over >= 1 edge -/
+example :
+    let p : Seq.Plan := { adj := fun n => if n = 0 then [(1, 1)] else if n = 1 then [(2, 2)] else if n = 2 then [(3, 0), (4, 3)] else [],
+                          helper := .nodes, nodeFilter := some (fun n => n != 2) }
+    (Seq.accRun p 10 { stack := [{ root := 0, steps := [] }], visited := [] } []).1.stack = [] ∧
+    (Seq.events p 10 { stack := [{ root := 0, steps := [] }], visited := [] }).map Seq.Seg.node = [1, 0, 3] := by decide
 
 /-- TraverseIntermediaryPaths: the returned paths, in order -/
 theorem intermediaryPaths_eq_spec (p : Seq.Plan) (_hp : p.helper = .intermediary) (root : Nat) (skip limit : Int) (fuel : Nat) :
